@@ -56,7 +56,12 @@ def encode_string(s: str) -> bytes:
     return bytes(s, 'utf-8')
 
 
-entity_re = re.compile(r'&(#?)(x?)(\d{1,5}|\w{1,8});')
+# The "x" marks a hexadecimal reference only when it follows "&#"; in
+# a named reference (e.g. "&xi;") it is part of the name.
+entity_re = re.compile(r'&(#?)((?<=#)[xX]|)(\d{1,5}|\w{1,8});')
+
+# The HTML 4 table lacks the XML predefined entity "&apos;".
+name2codepoint = dict(htmlentitydefs.name2codepoint, apos=39)
 
 module_cache = {}
 
@@ -217,19 +222,16 @@ def char2entity(c: str | bytes | bytearray) -> str:
 
 def substitute_entity(
     match: re.Match[str],
-    n2cp: Mapping[str, int] = htmlentitydefs.name2codepoint
+    n2cp: Mapping[str, int] = name2codepoint
 ) -> str:
     ent = match.group(3)
 
     if match.group(1) == "#":
-        if match.group(2) == '':
-            return chr(int(ent))
-        elif match.group(2) == 'x':
-            return chr(int('0x' + ent, 16))
-        else:
-            # FIXME: This should be unreachable, so we can
-            #        try raising an AssertionError instead
-            return ''
+        try:
+            return chr(int(ent, 16 if match.group(2) else 10))
+        except (ValueError, OverflowError):
+            # Not a character reference; leave the text as it is.
+            return match.group()
     else:
         cp = n2cp.get(ent)
 
